@@ -1,16 +1,331 @@
-"""C07 — Saving unchanged tags is lossless and idempotent."""
+"""C07 — Saving unchanged tags is lossless and idempotent; ID3/APEv2 bytes do not depend on insertion order."""
+import struct
 import containers
+import formats as F
+import walkers
+import id3spec
+from guards import timed
 
-RULE = ("random edit histories (set tiny/huge/empty/unicode values, save with default/0/n/keep padding, save through a fresh object, "
-        "delete by method and by module function, reload) over every sample of every taggable format; after each save/delete an independent "
-        "container walker extracts everything the tagging type does not own (audio, other Ogg streams and packets, non-comment FLAC blocks, "
-        "non-metadata MP4 atoms, other IFF chunks, unknown ASF objects, tags of another family) and compares it byte for byte and in order "
-        "with the state before. FLAC is additionally modelled and proved in Lean. Non-trivial: a save or delete ran; distinct by "
-        "(format, sample, history index, step)")
+RULE = ("(1) random edit histories over every sample of every taggable format; after every save the unchanged tags are saved again, "
+        "then through a reloaded object: bytes must be identical and the tag snapshot unchanged (FLAC additionally modelled and proved "
+        "in Lean: flac_resave_idempotent, flac_resave_lossless). (2) layouts with very large existing padding (0.5-12 MiB) for every "
+        "padded format: load, save (default policy), reload, save again: byte-identical. (3) tag data mutagen cannot interpret: unknown "
+        "but valid ID3 frames of the tag's own version (v2.3 and v2.4, found again by the independent ID3 walker), MP4 ilst children that "
+        "fail to parse, FLAC application/unknown blocks and unknown ASF objects (via the walkers' foreign lists) survive load+save. "
+        "(4) insertion order: the same ID3 frame set / APEv2 item set inserted in two random orders into fresh objects over the same "
+        "file gives identical bytes (Lean: ape_order_independent, id3_order_independent over the model of the sort keys). "
+        "Non-trivial: a save ran and the file had tags; distinct by (format, sample, history/step or generated set)")
+
+HUGE = [512 * 1024, 3 * 1024 * 1024 + 17, 12 * 1024 * 1024]
+
+
+def huge_padding(ctx):
+    """existing padding so large that the default policy shrinks it: the shrunk file must be a fixed point"""
+    sizes = HUGE if not ctx.quick else [HUGE[0], HUGE[2]]
+    for fmt in F.TAGGABLE:
+        if not fmt.padding:
+            continue
+        sname = fmt.samples[0]
+        data = F.sample_bytes(ctx.repo, sname)
+        for pad in sizes:
+            if fmt.kind.startswith("Ogg") and pad > 4 * 1024 * 1024:
+                pad = 4 * 1024 * 1024          # page CRCs in Python: keep the run short
+            if fmt.kind == "FLAC":
+                pad = min(pad, 2 ** 24 - 1)
+            case = {"format": fmt.kind, "sample": sname, "existing_padding": pad, "sub": "huge-padding"}
+            name = "h" + (fmt.exts[0] if fmt.exts else "")
+            def build():
+                s = containers.Session(fmt, data, name)
+                F.put(fmt, s.obj, 0, "huge padding layout")
+                s.apply(("save", ("const", pad), False))
+                return s
+            k, sess = timed(build, 60)
+            if k != "ok":
+                ctx.hist["huge:cannot-build:" + fmt.kind] += 1
+                continue
+            b0 = sess.data
+            def step():
+                sess.reload()
+                sess.apply(("save", ("none",), False))
+                return sess.data
+            k1, b1 = timed(step, 60)
+            k2, b2 = timed(step, 60)
+            k3, b3 = timed(step, 60)
+            ctx.case(key=("huge", fmt.kind, pad), nontrivial=True, modelled=False,
+                     sample=case if fmt.kind == "MP3" else None)
+            ctx.hist["huge:" + fmt.kind] += 1
+            if (k1, k2, k3) != ("ok", "ok", "ok"):
+                ctx.violation("%s:huge-padding:save-fails" % fmt.kind, "saving a file with %d bytes of padding failed: %r" % (pad, (b1, b2, b3)), case)
+                continue
+            if b2 != b1 or b3 != b2:
+                ctx.violation("%s:resave-not-idempotent:huge-padding" % fmt.kind,
+                              "file with %d bytes of tag padding: successive unchanged saves give %d, %d, %d, %d bytes"
+                              % (pad, len(b0), len(b1), len(b2), len(b3)), case)
+            w = walkers.walk(fmt.kind, b1)
+            if w.errors:
+                ctx.violation("%s:huge-padding:malformed" % fmt.kind, "; ".join(w.errors[:3]), case)
+
+
+def syncsafe4(n):
+    return bytes([(n >> 21) & 0x7F, (n >> 14) & 0x7F, (n >> 7) & 0x7F, n & 0x7F])
+
+
+def id3_tag_with_unknown(rng, ver):
+    """a tag holding known frames and unknown-but-valid frames (upper-case alnum ids that no table knows)"""
+    frames = []
+    def fr(fid, body, flags=0):
+        size = syncsafe4(len(body)) if ver == 4 else struct.pack(">L", len(body))
+        return fid + size + struct.pack(">H", flags) + body
+    unknown = []
+    frames.append(fr(b"TIT2", b"\x03known title"))
+    for i in range(rng.randrange(1, 4)):
+        fid = bytes(rng.choice(b"XYZQ") for _ in range(1)) + bytes(rng.choice(b"ABCDEFGHIJKLMNOPQRSTUVWXYZ0123456789") for _ in range(3))
+        body = bytes(rng.randrange(256) for _ in range(rng.choice([1, 2, 17, 300])))
+        if ver == 4:
+            body = body.replace(b"\xff", b"\x7f")     # keep it free of false syncs so that no flag games are needed
+        f = fr(fid, body)
+        unknown.append(f)
+        frames.append(f)
+    frames.append(fr(b"TPE1", b"\x00artist"))
+    body = b"".join(frames) + b"\x00" * rng.choice([0, 10, 200])
+    return b"ID3" + bytes([ver, 0, 0]) + syncsafe4(len(body)) + body, unknown
+
+
+def unknown_kept(ctx):
+    from mutagen.id3 import ID3
+    from mutagen.mp3 import MP3
+    rng = ctx.rng
+    audio = F.sample_bytes(ctx.repo, "no-tags.mp3")
+    for _ in range(ctx.budget(20, 200)):
+        ver = rng.choice([3, 4])
+        tag, unknown = id3_tag_with_unknown(rng, ver)
+        data = tag + audio
+        case = {"sub": "unknown-id3-frames", "version": ver, "tag": tag.hex(), "unknown": [u.hex() for u in unknown]}
+        fobj = F.NamedBytesIO(data, "u.mp3")
+        k, r = timed(lambda: MP3(fobj), 20)
+        ctx.case(key=("unknown", ver, tag[:64].hex(), len(tag)), nontrivial=True, modelled=False, sample=None)
+        ctx.hist["unknown-id3:v2.%d" % ver] += 1
+        if k != "ok":
+            ctx.violation("MP3:unknown-frames:load-fails", repr(r)[:120], case); continue
+        m = r
+        if len(m.tags.unknown_frames) != len(unknown):
+            # a random id may collide with a known frame: not what is tested here
+            ctx.hist["unknown-id3:collision"] += 1
+            continue
+        fobj.seek(0)
+        k, r = timed(lambda: m.save(fobj, v2_version=ver), 20)
+        if k != "ok":
+            ctx.violation("MP3:unknown-frames:save-fails", repr(r)[:120], case); continue
+        out = fobj.getvalue()
+        tagbytes = out[:10 + id3spec.syncsafe(out[6:10])]
+        missing = [u.hex()[:40] for u in unknown if u not in tagbytes]
+        if missing:
+            ctx.violation("MP3:unknown-frames-lost:v2.%d" % ver,
+                          "unknown frames of the tag's own version are not in the saved tag: %r" % missing[:3], case)
+        if out[len(tagbytes):] != audio:
+            ctx.violation("MP3:unknown-frames:audio-changed", "audio differs after save", case)
+    # MP4: an ilst child whose payload cannot be parsed must be written back unchanged
+    from mutagen.mp4 import MP4
+    base = F.sample_bytes(ctx.repo, "has-tags.m4a")
+    for bad_name, bad_payload in [(b"trkn", b"\x00\x00\x00\x00\x00\x00\x00\x00\x00\x01"),      # data atom too short for a pair
+                                  (b"tmpo", b"\x00\x00\x00\x15\x00\x00\x00\x00\x01\x02\x03"),  # 3-byte integer
+                                  (b"disk", b"\x00\x00\x00\x00\x00\x00\x00\x00")]:
+        m = MP4(F.NamedBytesIO(base, "a.m4a"))
+        # build the broken child and splice it in through mutagen's own failed-atom channel is not possible from the
+        # outside; synthesise the file instead: append the child to ilst and fix the parent sizes
+        child_data = struct.pack(">L4s", 8 + len(bad_payload), b"data") + bad_payload
+        child = struct.pack(">L4s", 8 + len(child_data), bad_name) + child_data
+        data2 = splice_ilst_child(base, child)
+        case = {"sub": "mp4-unparsable-atom", "atom": bad_name.decode(), "payload": bad_payload.hex()}
+        if data2 is None:
+            ctx.hist["mp4-unparsable:cannot-build"] += 1; continue
+        fobj = F.NamedBytesIO(data2, "a.m4a")
+        k, m2 = timed(lambda: MP4(fobj), 20)
+        ctx.case(key=("mp4-unparsable", bad_name), nontrivial=True, modelled=False, sample=None)
+        if k != "ok":
+            ctx.hist["mp4-unparsable:load-raises"] += 1; continue
+        if bad_name.decode("latin-1") in m2.tags:
+            ctx.hist["mp4-unparsable:parsed-after-all"] += 1; continue
+        fobj.seek(0)
+        k, r = timed(lambda: m2.save(fobj), 20)
+        if k != "ok":
+            ctx.violation("MP4:unparsable-atom:save-fails", repr(r)[:120], case); continue
+        if child not in fobj.getvalue():
+            ctx.violation("MP4:unparsable-atom-lost", "the ilst child %r that failed to parse is not in the saved file" % bad_name, case)
+        ctx.hist["mp4-unparsable:kept-checked"] += 1
+
+
+def splice_ilst_child(data, child):
+    """append `child` to moov.udta.meta.ilst, growing every parent; chunk offsets are fixed by shifting mdat-relative
+    tables only when moov precedes mdat — the sample used has moov after mdat? handled: returns None when unsure"""
+    def atoms(start, end):
+        out = []; pos = start
+        while pos + 8 <= end:
+            size, name = struct.unpack(">L4s", data[pos:pos + 8])
+            if size < 8 or pos + size > end:
+                break
+            out.append((name, pos, size)); pos += size
+        return out
+    path = [b"moov", b"udta", b"meta", b"ilst"]
+    start, end = 0, len(data)
+    chain = []
+    for name in path:
+        found = None
+        for (n, pos, size) in atoms(start, end):
+            if n == name:
+                found = (pos, size); break
+        if found is None:
+            return None
+        chain.append(found)
+        start = found[0] + 8 + (4 if name == b"meta" else 0)
+        end = found[0] + found[1]
+    ilst_pos, ilst_size = chain[-1]
+    moov_pos = chain[0][0]
+    # only safe when nothing with absolute offsets lies behind the insertion point
+    mdat = [pos for (n, pos, size) in atoms(0, len(data)) if n == b"mdat"]
+    if any(p > moov_pos for p in mdat):
+        return None
+    out = bytearray(data)
+    ins = ilst_pos + ilst_size
+    out[ins:ins] = child
+    for (pos, size) in chain:
+        out[pos:pos + 4] = struct.pack(">L", size + len(child))
+    return bytes(out)
+
+
+def order_independence(ctx):
+    rng = ctx.rng
+    from mutagen import id3 as I
+    from mutagen.apev2 import APEv2, APEValue
+    texts = ["a", "b", "", "Ünï", "\U0001F3B5", "x" * 40, "same", "same"]
+    # --- ID3 carriers
+    makers = [
+        lambda t: I.TIT2(encoding=3, text=[t]), lambda t: I.TPE1(encoding=3, text=[t]), lambda t: I.TALB(encoding=1, text=[t, t]),
+        lambda t: I.TRCK(encoding=0, text=["1/2"]), lambda t: I.TDRC(encoding=0, text=["2001"]), lambda t: I.TCON(encoding=3, text=[t]),
+        lambda t: I.TPOS(encoding=0, text=["1"]), lambda t: I.COMM(encoding=3, lang="eng", desc="a", text=[t]),
+        lambda t: I.COMM(encoding=3, lang="eng", desc="b", text=[t]), lambda t: I.TXXX(encoding=3, desc="k1", text=[t]),
+        lambda t: I.TXXX(encoding=3, desc="k2", text=[t]), lambda t: I.APIC(encoding=0, mime="image/png", type=3, desc="c", data=t.encode("utf-8")),
+        lambda t: I.APIC(encoding=0, mime="image/png", type=4, desc="d", data=t.encode("utf-8")), lambda t: I.PRIV(owner="o1", data=b"\x01\x02"),
+        lambda t: I.PRIV(owner="o2", data=b"\x02\x01"), lambda t: I.UFID(owner="u", data=b"id"), lambda t: I.POPM(email="e", rating=3, count=7),
+        lambda t: I.TPE2(encoding=3, text=[t]), lambda t: I.TCOM(encoding=3, text=[t]), lambda t: I.TSRC(encoding=0, text=["US"]),
+    ]
+    id3_fmts = [f for f in F.TAGGABLE if f.family == "id3"]
+    from mutagen.id3._tags import ID3SaveConfig, save_frame
+    PRIO = ["TIT2", "TPE1", "TRCK", "TALB", "TPOS", "TDRC", "TCON"]
+    reqs = []       # (request line, expected bytes, case)
+    for _ in range(ctx.budget(30, 400)):
+        fmt = rng.choice(id3_fmts)
+        sname = rng.choice(fmt.samples[:3])
+        data = F.sample_bytes(ctx.repo, sname)
+        n = rng.randrange(2, 12)
+        chosen = rng.sample(range(len(makers)), n)
+        t = rng.choice(texts)
+        outs = []
+        orders = []
+        ver = rng.choice([3, 4])
+        for rep in range(2):
+            order = chosen[:]
+            rng.shuffle(order)
+            orders.append(order)
+            fobj = F.NamedBytesIO(data, "o" + fmt.exts[0])
+            try:
+                obj = fmt.cls(fobj)
+                if obj.tags is None:
+                    obj.add_tags()
+                obj.tags.clear()
+                for i in order:
+                    obj.tags.add(makers[i](t))
+                fobj.seek(0)
+                if fmt.kind in ("MP3", "TrueAudio"):
+                    obj.save(fobj, v2_version=ver, v1=0)
+                else:
+                    obj.save(fobj, v2_version=ver)
+                outs.append(fobj.getvalue())
+                if rep == 0:
+                    cfg = ID3SaveConfig(ver, "/")
+                    fl = []
+                    for fr in obj.tags.values():
+                        prio = PRIO.index(fr.FrameID) if fr.FrameID in PRIO else len(PRIO)
+                        d = save_frame(fr, config=cfg)
+                        fl.append("%d:%s:%s" % (prio, d.hex() or "-", ".".join(str(ord(c)) for c in fr.HashKey) or "-"))
+                    reqs.append(("tagc op=id3body frames=%s" % (",".join(fl) or "_"), bytes(obj.tags._write(cfg)),
+                                 {"sub": "order-model", "format": fmt.kind, "frames": chosen, "order": order, "text": t, "version": ver}))
+            except Exception as e:
+                outs.append(("exc", type(e).__name__))
+        case = {"sub": "order", "format": fmt.kind, "sample": sname, "frames": chosen, "orders": orders, "text": t, "version": ver}
+        ctx.case(key=("order", fmt.kind, sname, tuple(sorted(chosen)), t, ver), nontrivial=orders[0] != orders[1], modelled=True, sample=None)
+        ctx.hist["order:" + fmt.kind] += 1
+        if outs[0] != outs[1]:
+            ctx.violation("%s:order-dependent-bytes" % fmt.kind,
+                          "the same %d frames inserted in two orders give different files (%s vs %s)"
+                          % (n, len(outs[0]) if isinstance(outs[0], bytes) else outs[0], len(outs[1]) if isinstance(outs[1], bytes) else outs[1]), case)
+    # --- APEv2 family
+    ape_fmts = [f for f in F.TAGGABLE if f.family == "ape"]
+    keys = ["Title", "Artist", "Album", "Year", "Track", "Genre", "Comment", "Cover Art (front)", "X-A", "X-B", "ab", "ba"]
+    for _ in range(ctx.budget(30, 400)):
+        fmt = rng.choice(ape_fmts)
+        sname = rng.choice(fmt.samples[:3])
+        data = F.sample_bytes(ctx.repo, sname)
+        n = rng.randrange(2, len(keys))
+        chosen = rng.sample(keys, n)
+        vals = {k: (rng.choice(texts) if not k.startswith("Cover") else APEValue(b"\x00\x01" + rng.choice(texts).encode("utf-8"), 1)) for k in chosen}
+        outs = []; orders = []
+        for rep in range(2):
+            order = chosen[:]
+            rng.shuffle(order)
+            orders.append(order)
+            fobj = F.NamedBytesIO(data, "o" + fmt.exts[0])
+            try:
+                obj = fmt.cls(fobj)
+                if obj.tags is None:
+                    obj.add_tags()
+                for k in list(obj.tags.keys()):
+                    del obj.tags[k]
+                for k in order:
+                    obj.tags[k] = vals[k]
+                fobj.seek(0)
+                obj.save(fobj)
+                outs.append(fobj.getvalue())
+                if rep == 0:
+                    il = []
+                    for k, v in obj.tags.items():
+                        il.append("%s:%d:%s" % (k.encode("utf-8").hex(), v.kind, v._write().hex() or "-"))
+                    w = walkers.walk(fmt.kind, outs[-1])
+                    tb = w.tag_bytes
+                    # header(32) + items + footer(32)
+                    body = tb[32:len(tb) - 32] if tb[:8] == b"APETAGEX" else None
+                    if body is not None:
+                        reqs.append(("tagc op=apebody items=%s" % (",".join(il) or "_"), body,
+                                     {"sub": "order-model", "format": fmt.kind, "keys": order}))
+            except Exception as e:
+                outs.append(("exc", type(e).__name__))
+        case = {"sub": "order", "format": fmt.kind, "sample": sname, "keys": chosen, "orders": orders,
+                "values": {k: (v if isinstance(v, str) else "binary") for k, v in vals.items()}}
+        ctx.case(key=("order", fmt.kind, sname, tuple(sorted(chosen)), tuple(sorted(case["values"].items()))),
+                 nontrivial=orders[0] != orders[1], modelled=True, sample=None)
+        ctx.hist["order:" + fmt.kind] += 1
+        if outs[0] != outs[1]:
+            ctx.violation("%s:order-dependent-bytes" % fmt.kind, "the same %d items inserted in two orders give different files" % n, case)
+    # --- model tie: the Lean sort model (TagOrder.apeBody / id3Body) produces the bytes mutagen wrote
+    if ctx.model_ok() and reqs:
+        from vcheck import parse_fields
+        answers = ctx.driver.ask([r[0] for r in reqs])
+        for (line, expect, case), ans in zip(reqs, answers):
+            st, fields = parse_fields(ans)
+            got = fields.get("v", "")
+            got = b"" if got == "-" else bytes.fromhex(got) if st == "ok" else None
+            ctx.traces_validated += 1
+            if got != expect:
+                ctx.disagree("order model: Lean body differs from the bytes mutagen wrote", case,
+                             model=(got.hex()[:80] if got is not None else ans), impl=expect.hex()[:80])
+        ctx.hist["order:model-traces"] += len(reqs)
 
 
 def run(ctx):
     containers.run_histories(ctx, {"resave"}, RULE)
+    huge_padding(ctx)
+    unknown_kept(ctx)
+    order_independence(ctx)
 
 
 def search(ctx):
